@@ -246,7 +246,7 @@ def classify(c, exp, got, st1):
         return K_EOR2
     if "call_past_list_end_painted_arg" in ft:
         return K_HANG
-    if "call_past_list_end" in ft and "arg_ends_with_fn_name" in ft and not st1.startswith("rc"):
+    if "call_name_ends_list" in ft and ft & {"arg_ends_with_fn_name", "arg_empty"} and not st1.startswith("rc"):
         return K_EORWS
     if glue:
         return "cpp:mac:tokens_glued_in_E_text"
@@ -305,7 +305,7 @@ def gen_cases(jobs, stats, maxpar=None):
         if not os.path.exists(os.path.join(vlib.SPEC, cfg)):
             raise MachineryError("missing " + cfg)
         for p in range(nparts):
-            kw = dict(module="CPP", cfg=cfg, workers=2 if sim else 4, env={"PART": p, "NPARTS": nparts}, heap="3g", timeout=2400)
+            kw = dict(module="CPP", cfg=cfg, workers=2 if sim else 4, env={"PART": p, "NPARTS": nparts}, heap="3g -Xss64m", timeout=1500)
             if sim:
                 kw.update(simulate=max(1, sim // nparts), depth=depth, seed_=vlib.seed() * 1000 + p)
             kws.append(kw)
